@@ -116,3 +116,9 @@ func ReadCases(path string, fn func(line int, raw []byte)) error {
 	}
 	return sc.Err()
 }
+
+// Buf returns the events of the trace being built (they may be annotated before End writes them).
+func (w *Writer) Buf() []E { return w.buf }
+
+// SetBuf replaces the events of the trace being built.
+func (w *Writer) SetBuf(b []E) { w.buf = b }
